@@ -91,7 +91,72 @@ fn c_view<O, V>(obj: &O, vt: &V, idx: usize, n: usize) -> (usize, *const u8) {
     (word, unsafe { words.add(1) } as *const u8)
 }
 
+/// How a vtable entry presents itself to a C caller, decided by its TYPE: integer-coded
+/// `(container, flag, out slot) -> i32`, or a C result returned by value. Implemented for both
+/// function-pointer shapes so that the harness keeps compiling - and turns into a failing
+/// assertion instead of a build error - if the generator changes which shape it emits.
+pub trait EntryShape<T> {
+    /// Some((code, slot value afterwards)) for an integer-coded entry, None otherwise.
+    unsafe fn call_int_coded(self, cont: *const u8, flag: bool, slot: &mut MaybeUninit<T>) -> Option<i32>;
+}
+impl<C, T> EntryShape<T> for for<'a, 'b> unsafe extern "C" fn(&'a C, bool, &'b mut MaybeUninit<T>) -> i32 {
+    unsafe fn call_int_coded(self, cont: *const u8, flag: bool, slot: &mut MaybeUninit<T>) -> Option<i32> {
+        Some(self(&*(cont as *const C), flag, slot))
+    }
+}
+impl<C, T, E> EntryShape<T> for for<'a> unsafe extern "C" fn(&'a C, bool) -> CResult<T, E> {
+    unsafe fn call_int_coded(self, _cont: *const u8, _flag: bool, _slot: &mut MaybeUninit<T>) -> Option<i32> {
+        None
+    }
+}
+
+/// Drive one entry: integer-coded iff `expect_int`; 0 exactly for Ok; slot written iff Ok.
+fn drive_entry<F: EntryShape<T>, T: Copy + PartialEq>(f: F, cont: *const u8, fail: bool, sentinel: T, ok_val: T, expect_int: bool) {
+    let mut out = MaybeUninit::<T>::uninit();
+    unsafe { out.as_mut_ptr().write(sentinel) };
+    let r = unsafe { f.call_int_coded(cont, fail, &mut out) };
+    assert!(r.is_some() == expect_int, "the entry is integer-coded exactly when the method is marked to use integer results");
+    if let Some(code) = r {
+        assert!((code == 0) == !fail, "0 exactly for Ok");
+        assert!(unsafe { out.as_ptr().read() } == if fail { sentinel } else { ok_val }, "slot written iff Ok, untouched on Err");
+    }
+}
+
 nd::harnesses! {
+    /// Which entries are integer-coded is decided by the markers: trait-level #[int_result], the
+    /// per-method #[no_int_result] opt-out (also with an integer-coded method declared AFTER it),
+    /// a result alias, a method-level marker.
+    fn c13e_entry_shapes() {
+        let mut twin = R { k: nd::any() };
+        let k = twin.k;
+        let fail: bool = nd::any();
+        let s64: u64 = nd::any();
+        let s32: u32 = nd::any();
+        nd::cover!(fail, "Err");
+        nd::cover!(!fail, "Ok");
+        {
+            let obj = trait_obj!(&mut twin as IR);
+            let vt: &IRVtbl<_> = obj.get_vtbl_base();
+            let (_, cont) = c_view(&obj, vt, 0, 5);
+            drive_entry(vt.ir_val(), cont, fail, s64, k, true);
+            drive_entry(vt.ir_plain(), cont, fail, s64, k, false);
+            drive_entry(vt.ir_after(), cont, fail, s32, k as u32, true);
+        }
+        {
+            let a = trait_obj!(&twin as IRA);
+            let va: &IRAVtbl<_> = a.get_vtbl_base();
+            let (_, cont) = c_view(&a, va, 0, 2);
+            drive_entry(va.ira(), cont, fail, s64, k ^ 7, true);
+            drive_entry(va.ira_plain(), cont, fail, s64, k, false);
+        }
+        {
+            let m = trait_obj!(&twin as IRM);
+            let vm: &IRMVtbl<_> = m.get_vtbl_base();
+            let (_, cont) = c_view(&m, vm, 1, 2);
+            drive_entry(vm.irm_cres(), cont, fail, s32, 2, false);
+        }
+    }
+
     /// Rust-side round trip equals the direct call, for every marker combination.
     fn c13e_roundtrip() {
         reset();
